@@ -24,6 +24,7 @@ AsBuilt == {"silent_merge"}
 \* colliding pairs within one scope (exported for the planted-name generation leg)
 PairLen == IF IOEnv.PAIRLEN = "3" THEN 3 ELSE 2
 PairNames == {n \in AllNames : Len(n) <= PairLen}
+PlantSet == IF IOEnv.NAMESET = "list" THEN AllNames ELSE PairNames
 PairRows == LET ps == SetToSeq({p \in PairNames \X PairNames : p[1] # p[2] /\
                                    (Collide(p[1], p[2], TRUE, TRUE, TRUE) \/ Collide(p[1], p[2], FALSE, TRUE, TRUE)
                                     \/ Collide(p[1], p[2], TRUE, FALSE, FALSE) \/ Collide(p[1], p[2], FALSE, FALSE, FALSE))}) IN
